@@ -348,18 +348,19 @@ def _prop(repo, it, o, name):
     return it.run(g, [], self_obj=o)
 
 
-def _adapter(repo, cls, linked=False):
+def _adapter(repo, cls, linked=False, src=None, ctor=None):
     from ..absbase import seed_from_init
     o = Obj(cls=cls, label=cls.name)
     it = ExchInterp(repo)
-    seed_from_init(it, cls, o, {})
+    seed_from_init(it, cls, o, ctor or {})
     o.fields.update(logger=Logger(label="logger"))
     o.fields.setdefault("name", "ad")
-    if linked:
+    if linked or src is not None:
         setter = repo.resolve(cls, "source", "setter")
         if setter is None:
             raise AnalysisError(f"{cls.name}.source has no setter")
-        it.run(setter, [Obj(label="source", markers={"IOutput", "IAdapter"}, fields={"logger_name": "src", "name": "src"})], self_obj=o)
+        src = src if src is not None else Obj(label="source", markers={"IOutput", "IAdapter"}, fields={"logger_name": "src", "name": "src"})
+        it.run(setter, [src], self_obj=o)
     return o
 
 
